@@ -32,6 +32,13 @@ def plan(tier):
         [C.FORK3HS, C.JOIN3HS, C.CHAIN3HS, C.CHAIN3SH, C.CHAIN3, C.TRI3, C.JOIN3SS, C.FORK3, C.JOIN3]
     for edges in heavy:
         out.append((C.cfg(3, edges, ['ok'] * 3, 2), 2))
+    # B': re-runs - the middle task of a 3-chain is DONE from an earlier run (with clocks), the other two must run
+    for edges in (C.CHAIN3, C.CHAIN3HS, C.CHAIN3SH):
+        out.append((C.cfg(3, edges, ['ok'] * 3, 2, init=[(1, 'DONE', True)]), 1))
+        out.append((C.cfg(3, edges, ['ok'] * 3, 1, init=[(1, 'DONE', True)]), 2))
+        if tier == 'thorough':
+            out.append((C.cfg(3, edges, ['ok'] * 3, 2, init=[(1, 'DONE', True)]), 2))
+            out.append((C.cfg(3, edges, ['ok'] * 3, 2, init=[(1, 'DONE', True), (2, 'DONE', True)]), 1))
     # C: every forward DAG on 3 tasks, every edge hard or soft
     for edges in C.forward_dags(3):
         out.append((C.cfg(3, edges, ['ok'] * 3, 2), 1))
@@ -56,7 +63,7 @@ def plan(tier):
 
 
 def run(tier, seed):
-    rep = check.run_configs('C01', plan(tier), seed, 150 if tier == 'quick' else 3000)
+    rep = check.run_configs('C01', plan(tier), seed, 420 if tier == 'quick' else 3000)
     if tier == 'thorough':      # all interleavings (sleep sets) of the smallest configurations
         rep.merge(check.run_por('C01', [C.cfg(2, C.CHAIN2, ['ok', 'ok'], 1), C.cfg(2, C.CHAIN2S, ['badupdate', 'ok'], 1), C.cfg(1, [], ['ok'], 2)], seed))
     return rep
@@ -68,5 +75,5 @@ def replay(case):
 
 ENGINE = 'E-sched'
 DESIGN_REF = '4/C01'
-LEVEL_TEXT = ("Every interleaving of the master and worker threads of the real QueueScheduling code at every synchronisation operation, up to 2 preemptions (3 for 1 worker; bound per configuration in the evidence), for all 2-task chains (hard/soft, dependency submitted before/after its dependent, all 8 outcomes of the dependency) and all 27 hard/soft forward DAGs on 3 tasks with 1-2 workers (3 workers at bound 0-1): at every start of a probe task's do() each dependency shows its final status, has finished, and its complete update (own entry, nested mapping, shared mapping) is readable. Exhaustive within the bound: a violation needing more preemptions or a larger graph is out of reach.")
+LEVEL_TEXT = ("Every interleaving of the master and worker threads of the real QueueScheduling code at every synchronisation operation, up to 2 preemptions (3 for 1 worker; bound per configuration in the evidence), for all 2-task chains (hard/soft, dependency submitted before/after its dependent, all 8 outcomes of the dependency) all 27 hard/soft forward DAGs on 3 tasks with 1-2 workers, and 3-chains whose middle task is DONE from an earlier run, (3 workers at bound 0-1): at every start of a probe task's do() each dependency shows its final status, has finished, and its complete update (own entry, nested mapping, shared mapping) is readable. Exhaustive within the bound: a violation needing more preemptions or a larger graph is out of reach.")
 LEVEL_NOTE = ('Controlled scheduler models threading/queue/time semantics (DESIGN.md 2.1, 7); GIL-atomic dictionary operations; bounded preemptions.')
